@@ -160,15 +160,17 @@ BudgetOK == /\ how = "none" => rs = {}
                                   Cardinality(rs \ (IF c = 0 THEN {} ELSE SeqSet(Tabs[sn].classes[c]))) <= SimMax
 CfgOK == cfg # NoCfg => /\ cfg.comp \in SeqSet(SnComps(Tabs[sn].kind))
                         /\ cfg.filt \in SnPresetSet /\ cfg.flagseq \in FlagSeqs
-\* the protocol makes every relation observable: a load with INCLUDE_DISALLOWED comes after the load of the same
-\* filter preset without the flag whenever the tuple has both; loads come in pairs; the XML trip follows its pair
+\* the protocol makes every relation observable: loads come in pairs; the XML trip follows its pair; a finished history
+\* with an INCLUDE_DISALLOWED load has the load of the same filter preset without the flag (before or after it: the
+\* trace specification relates them whichever comes first) whenever the tuple has both flag words
 IsLoad(k) == hist[k][1] = "load"
 ProtocolOK ==
   /\ \A k \in DOMAIN hist : (IsLoad(k) /\ hist[k][2] = 1) => k > 1 /\ hist[k - 1] = <<"load", 0, hist[k][3], hist[k][4]>>
   /\ \A k \in DOMAIN hist : hist[k][1] = "xml_import" => k > 2 /\ IsLoad(k - 1) /\ IsLoad(k - 2)
-  /\ \A k \in DOMAIN hist : (IsLoad(k) /\ Bit(hist[k][4], FLAG_INCLUDE_DISALLOWED)) =>
-        ((\E j \in DOMAIN cfg.flagseq : cfg.flagseq[j] = hist[k][4] - FLAG_INCLUDE_DISALLOWED)
-           => \E j \in 1..(k - 1) : IsLoad(j) /\ hist[j][3] = hist[k][3] /\ hist[j][4] = hist[k][4] - FLAG_INCLUDE_DISALLOWED)
+  /\ pc = "done" =>
+       \A k \in DOMAIN hist : (IsLoad(k) /\ Bit(hist[k][4], FLAG_INCLUDE_DISALLOWED)) =>
+          ((\E j \in DOMAIN cfg.flagseq : cfg.flagseq[j] = hist[k][4] - FLAG_INCLUDE_DISALLOWED)
+             => \E j \in DOMAIN hist : IsLoad(j) /\ hist[j][3] = hist[k][3] /\ hist[j][4] = hist[k][4] - FLAG_INCLUDE_DISALLOWED)
   /\ pc = "done" => Cardinality({k \in DOMAIN hist : IsLoad(k)}) = 2 * Len(cfg.flagseq)
 
 EmitDone == (~SimMode /\ pc = "done") => PrintT(<<"TUPLE", ToJson(hist)>>)
